@@ -18,6 +18,7 @@ import (
 	"github.com/enfein/mieru/v3/pkg/appctl/appctlcommon"
 	"github.com/enfein/mieru/v3/pkg/appctl/appctlpb"
 	mcipher "github.com/enfein/mieru/v3/pkg/cipher"
+	mlog "github.com/enfein/mieru/v3/pkg/log"
 	"github.com/enfein/mieru/v3/pkg/metrics"
 	"github.com/enfein/mieru/v3/pkg/protocol"
 	"google.golang.org/protobuf/proto"
@@ -29,6 +30,12 @@ import (
 	"verif/engine/vsync"
 	"verif/engine/vtime"
 )
+
+func init() {
+	// mieru's logger writes to stdout by default; the harnesses never want it
+	mlog.SetFormatter(&mlog.NilFormatter{})
+	mlog.SetOutput(io.Discard)
+}
 
 // Epoch of every execution: 2026-01-01T00:00:30Z, in the middle of a key slot half.
 var Epoch = time.Unix(1767225630, 0)
